@@ -27,6 +27,7 @@ def run_check(pid, patch, tier="quick"):
         if detail["kind"] in ("obligation", "correspondence") and not detail["clause"]:
             detail["broken"] = str(j.get("detail", {}).get("broken") or j.get("detail", {}).get("family") or "")[:200]
     shutil.rmtree(d, ignore_errors=True)
+    subprocess.run(['/verif/tools/regen.sh'], capture_output=True)
     return verdict, detail
 
 
